@@ -12,6 +12,8 @@ import (
 	"math"
 	"math/rand"
 	"os"
+	"runtime"
+	"sync"
 	"time"
 
 	vegeta "github.com/tsenart/vegeta/v12/lib"
@@ -596,40 +598,68 @@ func runC01(c *Ctx) int {
 	}
 
 	steps := c.Pick(5000, 20000)
-	nRandom := c.Pick(260, 5000)
+	nRandom := c.Pick(260, 40000)
 	stalls := []string{"none", "small", "huge", "mix"}
 	rng := c.Rand("params")
 	cases := c01Grid()
 	for i := 0; i < nRandom; i++ {
 		cases = append(cases, c01Random(rng))
 	}
-	var tot c01Stats
-	for i, base := range cases {
-		for si, stall := range stalls {
-			if c.Quick() && si == 1 && i%2 == 0 { // quick: 3 of 4 stall histories on average
-				continue
-			}
-			pc := base
-			pc.Stall = stall
-			pc.StallSeed = c.Seed + int64(i*7+si)
-			pc.Steps = steps
-			st := runClosedLoop(run, pc)
-			run.Eval(1)
-			tot.steps += st.steps
-			tot.waits += st.waits
-			tot.catchups += st.catchups
-			tot.stops += st.stops
-			run.Max("max_ahead_hits/"+pc.Kind, st.maxAhead)
-			run.Max("max_behind_hits/"+pc.Kind, st.maxBehind)
-			run.Class(pc.Kind + "/" + pc.regime())
-			if st.trajectoryOK {
-				b, _ := json.Marshal(pc)
-				run.Distinct(string(b))
-				if i%97 == 0 {
-					run.Sample(pc)
+	// The trajectories are independent: they are run by one worker per chunk of
+	// the case list, each into its own run, and merged in chunk order so that
+	// witnesses and samples do not depend on scheduling.
+	const chunks = 64
+	parts := make([]*ev.Run, chunks)
+	totals := make([]c01Stats, chunks)
+	var wg sync.WaitGroup
+	sem := make(chan struct{}, runtime.NumCPU())
+	for ch := 0; ch < chunks; ch++ {
+		wg.Add(1)
+		sem <- struct{}{}
+		go func(ch int) {
+			defer wg.Done()
+			defer func() { <-sem }()
+			part := ev.NewChildRun("C01", c.Tier)
+			parts[ch] = part
+			tot := &totals[ch]
+			for i := ch; i < len(cases); i += chunks {
+				base := cases[i]
+				for si, stall := range stalls {
+					if c.Quick() && si == 1 && i%2 == 0 { // quick: 3 of 4 stall histories on average
+						continue
+					}
+					pc := base
+					pc.Stall = stall
+					pc.StallSeed = c.Seed + int64(i*7+si)
+					pc.Steps = steps
+					st := runClosedLoop(part, pc)
+					part.Eval(1)
+					tot.steps += st.steps
+					tot.waits += st.waits
+					tot.catchups += st.catchups
+					tot.stops += st.stops
+					part.Max("max_ahead_hits/"+pc.Kind, st.maxAhead)
+					part.Max("max_behind_hits/"+pc.Kind, st.maxBehind)
+					part.Class(pc.Kind + "/" + pc.regime())
+					if st.trajectoryOK {
+						b, _ := json.Marshal(pc)
+						part.Distinct(string(b))
+						if i%97 == 0 {
+							part.Sample(pc)
+						}
+					}
 				}
 			}
-		}
+		}(ch)
+	}
+	wg.Wait()
+	var tot c01Stats
+	for ch := 0; ch < chunks; ch++ {
+		run.Merge(parts[ch].Export())
+		tot.steps += totals[ch].steps
+		tot.waits += totals[ch].waits
+		tot.catchups += totals[ch].catchups
+		tot.stops += totals[ch].stops
 	}
 	run.Count("pace_calls", tot.steps)
 	run.Count("steps_with_positive_wait", tot.waits)
@@ -660,10 +690,10 @@ func runC01(c *Ctx) int {
 	}
 	run.Count("single_point_calls", int64(nPoints))
 
-	run.Floor("pace_calls", int64(c.Pick(500000, 20000000)))
+	run.Floor("pace_calls", int64(c.Pick(500000, 200000000)))
 	run.Floor("steps_with_positive_wait", 10000)
 	run.Floor("steps_catch_up_or_immediate", 10000)
-	run.FloorDistinct(c.Pick(300, 5000))
+	run.FloorDistinct(c.Pick(300, 40000))
 	return run.Finish()
 }
 
